@@ -5,11 +5,12 @@ package bridge
 
 import (
 	"crypto/ed25519"
-	"io"
 	"crypto/sha256"
 	"encoding/binary"
 	"errors"
 	"fmt"
+	"hash/fnv"
+	"io"
 	"regexp"
 	"strings"
 	"time"
@@ -324,12 +325,46 @@ func WorldOpts() biscuit.AuthorizerOption {
 	return biscuit.WithWorldOptions(datalog.WithMaxDuration(LongDuration), datalog.WithMaxFacts(100000), datalog.WithMaxIterations(10000))
 }
 
+// deliveryOf picks, as a pure function of the content, how it is handed to the
+// library: element by element, or as one parsed value (AddBlock / AddAuthorizer).
+// Every check that builds tokens or fills authorizers thereby covers both ways.
+func deliveryOf(key string) int {
+	h := fnv.New32a()
+	h.Write([]byte(key))
+	return int(h.Sum32() % 3)
+}
+
+func toParsedBlock(facts []m.Pred, rules []m.Rule, checks []m.Check) biscuit.ParsedBlock {
+	pb := biscuit.ParsedBlock{}
+	for _, f := range facts {
+		pb.Facts = append(pb.Facts, ToFact(f))
+	}
+	for _, r := range rules {
+		pb.Rules = append(pb.Rules, ToRule(r))
+	}
+	for _, c := range checks {
+		pb.Checks = append(pb.Checks, ToCheck(c))
+	}
+	return pb
+}
+
 func AddBlockTo(bb interface {
 	AddFact(biscuit.Fact) error
 	AddRule(biscuit.Rule) error
 	AddCheck(biscuit.Check) error
 	SetContext(string)
 }, b m.Block) error {
+	if whole, ok := bb.(interface {
+		AddBlock(biscuit.ParsedBlock) error
+	}); ok && deliveryOf(b.Key()) == 0 {
+		if err := whole.AddBlock(toParsedBlock(b.Facts, b.Rules, b.Checks)); err != nil {
+			return err
+		}
+		if b.Context != "" {
+			bb.SetContext(b.Context)
+		}
+		return nil
+	}
 	for _, f := range b.Facts {
 		if err := bb.AddFact(ToFact(f)); err != nil {
 			return err
@@ -437,6 +472,21 @@ func DedupFacts(fs []m.Pred) []m.Pred {
 }
 
 func AddAuthz(a biscuit.Authorizer, az m.Authz) {
+	switch deliveryOf(az.Key()) {
+	case 0:
+		pa := biscuit.ParsedAuthorizer{Block: toParsedBlock(az.Facts, az.Rules, az.Checks)}
+		for _, p := range az.Policies {
+			pa.Policies = append(pa.Policies, ToPolicy(p))
+		}
+		a.AddAuthorizer(pa)
+		return
+	case 1:
+		a.AddBlock(toParsedBlock(az.Facts, az.Rules, az.Checks))
+		for _, p := range az.Policies {
+			a.AddPolicy(ToPolicy(p))
+		}
+		return
+	}
 	for _, f := range az.Facts {
 		a.AddFact(ToFact(f))
 	}
